@@ -1,7 +1,7 @@
 SPECIFICATION Spec
 CONSTANTS
   Depth = 3
-  Contexts = {1, 2, 3, 4, 5, 6}
+  Contexts = {1, 2, 3, 4, 5, 6, 7, 8, 9}
   DeepContexts = {1}
   Export = TRUE
 INVARIANT Inv
